@@ -50,12 +50,155 @@ CONTRACTS = [
                                                    seconds=Opt(Real(0)))),
              requires=['exactly_one_duration_unit(timex_property)'],
              ensures=[('length-in-seconds', 'result == str(duration_seconds(timex_property))')]),
-    Contract('c15.last_date_value.weekday', R + 'last_date_value', ['C15'],
+    Contract('c15.last_date_value.weekday', R + 'last_date_value', ['C15'], returns=Str(),
              params=dict(timex=timex_sort(day_of_week=Int(1, 7)), date=DateTime(1950, 2090)),
              ensures=[('that-weekday-immediately-before',
                        'result == date_str_of_ordinal(last_weekday_before(ordinal_of(date), timex.day_of_week))')]),
-    Contract('c15.next_date_value.weekday', R + 'next_date_value', ['C15'],
+    Contract('c15.next_date_value.weekday', R + 'next_date_value', ['C15'], returns=Str(),
              params=dict(timex=timex_sort(day_of_week=Int(1, 7)), date=DateTime(1950, 2090)),
              ensures=[('that-weekday-immediately-after',
                        'result == date_str_of_ordinal(next_weekday_after(ordinal_of(date), timex.day_of_week))')]),
 ]
+
+DRANGE = Rec(TX + 'date_range.py::DateRange', dict(start=DateTime(1950, 2090, midnight=True), end=DateTime(1950, 2090, midnight=True)))
+
+CONTRACTS += [
+    Contract('c15.dates_matching_day', H + 'dates_matching_day', ['C15'],
+             params=dict(day=Int(0, 6), start=DateTime(1950, 2090), end=DateTime(1950, 2090)),
+             requires=['start <= end', 'sec_of_day(start) == sec_of_day(end)'],
+             loops={0: LoopSpec(
+                 invariant=['ordinal_of(start) <= ordinal_of(d) and ordinal_of(d) <= ordinal_of(end)',
+                            'sec_of_day(d) == sec_of_day(start)',
+                            'len(result) == (ordinal_of(d) - first_match(ordinal_of(start), day) + 6) // 7',
+                            'forall(lambda a: result[a] == date_with(first_match(ordinal_of(start), day) + 7 * a, sec_of_day(start)), '
+                            '0, len(result))'],
+                 decreases='ordinal_of(end) - ordinal_of(d)',
+                 types={'result': Arr('dt')})},
+             ensures=[('only-matching-days-inside-range',
+                       'forall(lambda a: start <= result[a] and result[a] < end and result[a].weekday() == day, 0, len(result))'),
+                      ('in-order', 'forall(lambda a, b: implies(a < b, result[a] < result[b]), 0, len(result), 0, len(result))'),
+                      ('every-such-day-is-returned',
+                       'forall(lambda o: implies(weekday_of_ordinal(o) == day, '
+                       '0 <= (o - first_match(ordinal_of(start), day)) // 7 and (o - first_match(ordinal_of(start), day)) // 7 < len(result) '
+                       'and result[(o - first_match(ordinal_of(start), day)) // 7] == date_with(o, sec_of_day(start))), '
+                       'ordinal_of(start), ordinal_of(end))')]),
+    Contract('c15.daterange.collapse_overlapping', TX + 'date_range.py::DateRange.collapse_overlapping', ['C15'],
+             params=dict(self=DRANGE, range2=DRANGE),
+             ensures=[('intersection', 'result.start == max(self.start, range2.start) and result.end == min(self.end, range2.end)')]),
+    Contract('c15.date_from_timex', TX + 'timex_helpers.py::TimexHelpers.date_from_timex', ['C15'],
+             params=dict(timex=timex_sort(year=Opt(YEAR), month=Opt(MONTH), day_of_month=Opt(DAY))),
+             raises={'ValueError': 'not valid_date(timex.year if timex.year is not None else 2001, '
+                                   'timex.month if timex.month is not None else 1, '
+                                   'timex.day_of_month if timex.day_of_month is not None else 1)'},
+             ensures=[('date-of-fields', 'result == date_with(ordinal(timex.year if timex.year is not None else 2001, '
+                                         'timex.month if timex.month is not None else 1, '
+                                         'timex.day_of_month if timex.day_of_month is not None else 1), 0)')]),
+]
+
+RR = TX + 'timex_range_resolver.py::TimexRangeResolver.'
+TH = TX + 'timex_helpers.py::TimexHelpers.'
+
+CONTRACTS += [
+    Contract('c15.resolve_date_range.year_month', R + 'resolve_date_range', ['C15'],
+             params=dict(timex=timex_sort(year=Int(1, 9998), month=MONTH), date=DateTime(1950, 2090)),
+             ensures=[('one-entry', 'len(result) == 1 and result[0].type == "daterange"'),
+                      ('start', 'result[0].start == date_str(timex.year, timex.month, 1)'),
+                      ('end-first-of-next-month',
+                       'result[0].end == date_str(next_month(timex.year, timex.month)[0], next_month(timex.year, timex.month)[1], 1)')]),
+    Contract('c15.resolve_date_range.year', R + 'resolve_date_range', ['C15'],
+             params=dict(timex=timex_sort(year=Int(1, 9998)), date=DateTime(1950, 2090)),
+             ensures=[('one-entry', 'len(result) == 1 and result[0].type == "daterange"'),
+                      ('start', 'result[0].start == date_str(timex.year, 1, 1)'),
+                      ('end-first-of-next-year', 'result[0].end == date_str(timex.year + 1, 1, 1)')]),
+    Contract('c15.resolve_date_range.month', R + 'resolve_date_range', ['C15'],
+             params=dict(timex=timex_sort(month=MONTH), date=DateTime(1950, 2090)),
+             ensures=[('two-entries', 'len(result) == 2 and result[0].type == "daterange" and result[1].type == "daterange"'),
+                      ('last-year', 'result[0].start == date_str(date.year - 1, timex.month, 1) and result[0].end == '
+                                    'date_str(next_month(date.year - 1, timex.month)[0], next_month(date.year - 1, timex.month)[1], 1)'),
+                      ('this-year', 'result[1].start == date_str(date.year, timex.month, 1) and result[1].end == '
+                                    'date_str(next_month(date.year, timex.month)[0], next_month(date.year, timex.month)[1], 1)')]),
+    Contract('c15.resolve_duration', R + 'resolve_duration', ['C15'],
+             params=dict(timex=timex_sort(years=Opt(Real(0)), months=Opt(Real(0)), weeks=Opt(Real(0)),
+                                          days=Opt(Real(0)), hours=Opt(Real(0)), minutes=Opt(Real(0)),
+                                          seconds=Opt(Real(0)))),
+             requires=['exactly_one_duration_unit(timex)'],
+             ensures=[('length-in-seconds', 'len(result) == 1 and result[0].type == "duration" and '
+                                            'result[0].value == str(duration_seconds(timex))')]),
+    Contract('c15.resolve_date.weekday', R + 'resolve_date', ['C15'], modular=[R + 'last_date_value', R + 'next_date_value'],
+             params=dict(timex=timex_sort(day_of_week=Int(1, 7)), date=DateTime(1950, 2090)),
+             ensures=[('before-and-after',
+                       'len(result) == 2 and result[0].type == "date" and result[1].type == "date" and '
+                       'result[0].value == date_str_of_ordinal(last_weekday_before(ordinal_of(date), timex.day_of_week)) and '
+                       'result[1].value == date_str_of_ordinal(next_weekday_after(ordinal_of(date), timex.day_of_week))'),
+                      ('timex-kept', 'result[0].timex == "XXXX-WXX-" + str(timex.day_of_week) and result[1].timex == result[0].timex')]),
+    Contract('c15.resolve_timex.dispatch.weekday', R + 'resolve_timex', ['C15'], modular=[R + 'last_date_value', R + 'next_date_value'],
+             params=dict(timex=timex_sort(day_of_week=Int(1, 7)), date=DateTime(1950, 2090)),
+             ensures=[('resolves-as-date',
+                       'len(result) == 2 and '
+                       'result[0].value == date_str_of_ordinal(last_weekday_before(ordinal_of(date), timex.day_of_week)) and '
+                       'result[1].value == date_str_of_ordinal(next_weekday_after(ordinal_of(date), timex.day_of_week))')]),
+    Contract('c15.resolve_timex.dispatch.duration', R + 'resolve_timex', ['C15'],
+             params=dict(timex=timex_sort(years=Opt(Real(1)), months=Opt(Real(1)), weeks=Opt(Real(1)),
+                                          days=Opt(Real(1)), hours=Opt(Real(1)), minutes=Opt(Real(1)),
+                                          seconds=Opt(Real(1))), date=DateTime(1950, 2090)),
+             requires=['exactly_one_duration_unit(timex)'],
+             ensures=[('resolves-as-duration', 'len(result) == 1 and result[0].type == "duration" and '
+                                               'result[0].value == str(duration_seconds(timex))')]),
+    Contract('c15.resolve_timex.dispatch.year_month', R + 'resolve_timex', ['C15'],
+             params=dict(timex=timex_sort(year=Int(1, 9998), month=Opt(MONTH)), date=DateTime(1950, 2090)),
+             ensures=[('half-open-range',
+                       'len(result) == 1 and result[0].type == "daterange" and '
+                       'result[0].start == date_str(timex.year, timex.month if timex.month is not None else 1, 1) and '
+                       'result[0].end == (date_str(next_month(timex.year, timex.month)[0], next_month(timex.year, timex.month)[1], 1) '
+                       'if timex.month is not None else date_str(timex.year + 1, 1, 1))')]),
+    Contract('c15.expand_datetime_range.no_duration', TH + 'expand_datetime_range', ['C15'],
+             params=dict(timex=timex_sort(year=Int(1, 9998), month=Opt(MONTH))),
+             ensures=[('start', 'result.start.year == timex.year and result.start.day_of_month == 1 and '
+                                'result.start.month == (timex.month if timex.month is not None else 1)'),
+                      ('end-is-first-day-of-next-period',
+                       'result.end.day_of_month == 1 and '
+                       '(result.end.year, result.end.month) == (next_month(timex.year, timex.month) if timex.month is not None '
+                       'else (timex.year + 1, 1))')]),
+    Contract('c15.resolve_definite_against_constraint', RR + 'resolve_definite_against_constraint', ['C15'],
+             params=dict(timex=timex_sort(year=Int(1950, 2090), month=MONTH, day_of_month=DAY), constraint=DRANGE),
+             requires=['valid_date(timex.year, timex.month, timex.day_of_month)'],
+             ensures=[('inside-iff-returned',
+                       'result == ([date_str(timex.year, timex.month, timex.day_of_month)] '
+                       'if (ordinal_of(constraint.start) <= ordinal(timex.year, timex.month, timex.day_of_month) and '
+                       'ordinal(timex.year, timex.month, timex.day_of_month) < ordinal_of(constraint.end)) else [""])')]),
+    Contract('c15.resolve_time_against_constraint', RR + 'resolve_time_against_constraint', ['C15'],
+             params=dict(timex=timex_sort(time=True),
+                         constraint=Rec(TX + 'time_range.py::TimeRange',
+                                        dict(start=Rec(TX + 'time.py::Time', dict(hour=Int(0, 24), minute=Int(0, 59), second=Int(0, 59))),
+                                             end=Rec(TX + 'time.py::Time', dict(hour=Int(0, 24), minute=Int(0, 59), second=Int(0, 59)))))),
+             ensures=[('inside-iff-returned',
+                       'iff(len(result) == 1, secs(constraint.start) <= secs_of_timex(timex) and secs_of_timex(timex) < secs(constraint.end)) '
+                       'and (len(result) == 0 or len(result) == 1)'),
+                      ('same-time', 'implies(len(result) == 1, result[0] == timex_time_str(timex.hour, timex.minute, timex.second))')]),
+]
+
+CH_ = TX + 'timex_constraints_helper.py::TimexConstraintsHelper.'
+HELPER = Rec(TX + 'timex_constraints_helper.py::TimexConstraintsHelper', {})
+
+
+def _collapse_contracts():
+    out = []
+    for n in (1, 2, 3):
+        out.append(Contract(f'c15.inner_collapse.n{n}', CH_ + 'inner_collapse', ['C15'],
+                            params=dict(self=HELPER, ranges=ListOf(DRANGE, n)),
+                            ensures=[('two-removed-one-added', f'implies(result, len(ranges) == {n} - 1)'),
+                                     ('unchanged-when-no-overlap', f'implies(not result, len(ranges) == {n} and same_ranges(ranges, old(ranges)))'),
+                                     ('new-range-is-an-intersection',
+                                      'implies(result, is_pairwise_intersection(ranges[len(ranges) - 1], old(ranges)))'),
+                                     ('others-kept', 'implies(result, all_from(ranges, old(ranges), len(ranges) - 1))')],
+                            note=f'list length {n} (the property quantifies over 1-3 constraints)'))
+        out.append(Contract(f'c15.collapse.n{n}', CH_ + 'collapse', ['C15'], unroll=n + 1,
+                            params=dict(self=HELPER, ranges=ListOf(DRANGE, n)),
+                            ensures=[('terminates-with-at-least-one-range', 'len(result) >= 1'),
+                                     ('each-result-inside-an-original-range', 'all_inside_some(result, old(ranges))'),
+                                     ('sorted-by-start', 'sorted_by_start(result)')],
+                            note=f'list length {n}: loop unrolled completely (termination shown by exhausting all paths)'))
+    return out
+
+
+CONTRACTS += _collapse_contracts()
